@@ -1772,12 +1772,47 @@ func (e *Engine) selectInstr(fr *Frame, st *State, v *ssa.Select) SV {
 	return res
 }
 
+// RangeSV: the iterator of a range over a map. Iteration is over-approximated: every step
+// may stop or yield any key currently present (order, count and coverage are not modelled).
+type RangeSV struct {
+	M string
+	T *types.Map
+}
+
 func (e *Engine) rangeInit(fr *Frame, st *State, v *ssa.Range) SV {
-	panic(engErr("range over map/string is outside the subset: " + e.posStr(v.Pos())))
+	mt, ok := v.X.Type().Underlying().(*types.Map)
+	if !ok {
+		panic(engErr("range over a string is outside the subset: " + e.posStr(v.Pos())))
+	}
+	e.vc.usedExt["range over a map: each step yields an arbitrary present key or stops (order and coverage not modelled)"] = true
+	return &RangeSV{M: e.scalar(fr, v.X), T: mt}
 }
 
 func (e *Engine) rangeNext(fr *Frame, st *State, v *ssa.Next) SV {
-	panic(engErr("range over map/string is outside the subset"))
+	it, ok := e.val(fr, v.Iter).(*RangeSV)
+	if !ok || v.IsString {
+		panic(engErr("range over a string is outside the subset"))
+	}
+	xt := it.T
+	m := it.M
+	okT := e.vc.declare("rngok", "Bool")
+	key := e.freshSV(xt.Key(), "rngkey", st.pc, st)
+	k := e.flatten(xt.Key(), key)[0]
+	ks, pn, _ := e.mapSorts(xt)
+	psort := fmt.Sprintf("(Array Int (Array %s Bool))", ks)
+	h := e.heapGet(st, pn, psort)
+	e.vc.assume("true", implies(okT, and(not(fmt.Sprintf("(= %s 0)", m)), fmt.Sprintf("(select (select %s %s) %s)", h, m, k))))
+	lv := e.leaves(xt.Elem())
+	vals := make([]string, len(lv))
+	for i, l := range lv {
+		name, srt := e.mapValMap(xt, l)
+		hv := e.heapGet(st, name, srt)
+		raw := e.vc.define("mv", l.Sort, fmt.Sprintf("(select (select %s %s) %s)", hv, m, k))
+		e.assumeLoadedLeaf(l, raw, st)
+		vals[i] = raw
+	}
+	val := e.unflat(xt.Elem(), vals)
+	return &TupleSV{E: []SV{&Sc{okT}, key, val}}
 }
 
 // ---- defers ------------------------------------------------------------------
